@@ -165,7 +165,12 @@ async fn cookie_cases(addr: SocketAddr, conf: &Conf, out: &Mutex<Vec<Viol>>) -> 
         // the cookie response frame (about 330 bytes) does not fit: nothing to judge here
         return 0;
     }
-    for (name, age, secret, must_accept) in [("fresh", e - 2, SECRET, true), ("expired", e + 2, SECRET, false), ("other-secret", 0, "another-secret", false), ("very-old", e + 100_000, SECRET, false)] {
+    let cases: Vec<(&str, i64, &str, bool)> = if conf.expiry > u32::MAX as u64 {
+        vec![("fresh", 5, SECRET, true), ("old-but-within-a-huge-expiry", 1_000_000, SECRET, true), ("other-secret", 0, "another-secret", false)]
+    } else {
+        vec![("fresh", e - 2, SECRET, true), ("expired", e + 2, SECRET, false), ("other-secret", 0, "another-secret", false), ("very-old", e + 100_000, SECRET, false)]
+    };
+    for (name, age, secret, must_accept) in cases {
         if age < -1 {
             continue;
         }
@@ -318,6 +323,8 @@ pub fn run(cli: Cli) -> ! {
             Conf { max_packet_length: 1_000, expiry: 21_600, timeout: 18, proxy: String::new() },
             Conf { max_packet_length: 1_000, expiry: 60, timeout: 4, proxy: "v1v2".into() },
             Conf { max_packet_length: 1_000, expiry: 60, timeout: 3, proxy: "v2".into() },
+            Conf { max_packet_length: 1_000, expiry: u64::MAX, timeout: u64::MAX, proxy: String::new() },
+            Conf { max_packet_length: 1_000, expiry: 60, timeout: u64::MAX / 2, proxy: "v1v2".into() },
         ]
     } else {
         vec![
@@ -326,6 +333,7 @@ pub fn run(cli: Cli) -> ! {
             Conf { max_packet_length: 1_000, expiry: 60, timeout: 2, proxy: String::new() },
             Conf { max_packet_length: 2_000, expiry: 1, timeout: 1, proxy: String::new() },
             Conf { max_packet_length: 1_000, expiry: 60, timeout: 4, proxy: "v1v2".into() },
+            Conf { max_packet_length: 1_000, expiry: u64::MAX, timeout: u64::MAX, proxy: String::new() },
         ]
     };
     let total = std::sync::atomic::AtomicU64::new(0);
@@ -338,6 +346,10 @@ pub fn run(cli: Cli) -> ! {
                 // with a tiny max_packet_length a login cannot get past the handshake: only the
                 // behaviours that do not need one are meaningful
                 let mut bh: Vec<&str> = if conf.max_packet_length < 1000 { all[..4].to_vec() } else { all.to_vec() };
+                if conf.timeout > 1_000 {
+                    // "no deadline in practice": only that connections are handled at all is judged
+                    bh.clear();
+                }
                 if !conf.proxy.is_empty() && conf.proxy != "off" {
                     bh.push("late-proxy-header-then-silent");
                     bh.push("late-proxy-header-then-handshake");
